@@ -161,10 +161,21 @@ structure UnifyLaws (E : Env) : Prop where
   same : ∀ (uns : Bool) (t : Ty) (ts : List Ty), ts ≠ [] → (∀ x ∈ ts, x = t) →
     t.wf = true → t.hasOpt = false → E.unify uns ts = some t
 
-/-- the set parameters never panic or report an error (they may be `.unmodelled`) -/
+/-- what the set parameters are asked about by the conversions these theorems cover: a payload
+the element type can have, holding no mark at any depth (`SetVal` unmarks its members deeply
+before they reach `setRules`) and no unknown (the no-panic / totality theorems are about
+wholly-known values).  Go's `Value.Hash` panics on a marked value, and `setRules.Equivalent`
+on payloads of the wrong Go kind — both outside this domain. -/
+def memberOK (t : Ty) (p : Payload) : Bool := wtP t p && !p.containsMarked && p.whollyKnown
+
+/-- the set parameters never panic or report an error on well-typed, mark-free, wholly-known
+members of a well-formed element type (they may be `.unmodelled`).  Proved for the driver's
+environment `Env.concrete U` in `Lemmas/ConvertD08SetEnv.lean`. -/
 structure SetLaws (E : Env) : Prop where
-  hash_ok : ∀ t p, (∃ h, E.hash t p = .ok h) ∨ E.hash t p = .unmodelled
-  equiv_ok : ∀ t a b, (∃ r, E.equiv t a b = .ok r) ∨ E.equiv t a b = .unmodelled
+  hash_ok : ∀ t p, t.wf = true → memberOK t p = true →
+    (∃ h, E.hash t p = .ok h) ∨ E.hash t p = .unmodelled
+  equiv_ok : ∀ t a b, t.wf = true → memberOK t a = true → memberOK t b = true →
+    (∃ r, E.equiv t a b = .ok r) ∨ E.equiv t a b = .unmodelled
 
 /-- the simplest environment satisfying the laws: types unify only when they are all
 the same; every member hashes to bucket 0 and no two members are equivalent -/
